@@ -337,6 +337,23 @@ func runC16(o *out, thorough bool, r *rng, _ []string) map[string]interface{} {
 		}
 	}
 	emitParsed(o, lits, "source-literals")
+	// long runs of bytes that are not the start of anything in UTF-8 (continuation bytes), at the front and at the
+	// end, in inputs that are refused for other reasons; and queries made of very many empty pairs
+	var runs [][]byte
+	for _, n := range []int{63, 127, 128, 129, 255, 256, 257, 300, 1100} {
+		for _, b := range []string{"\x80", "\xbf", "\xc3"} {
+			run := strings.Repeat(b, n)
+			for _, u := range []string{run + ":3478", "stun:" + run, "stun:" + run + ":3478", "stun:[" + run + ":1", "stun:a:b:" + run, "turn:h:1?transport=" + run,
+				run + "://h", "stun:h:3478\x01" + run, "stuns:[::1" + run} {
+				runs = append(runs, []byte(u))
+			}
+		}
+	}
+	for _, n := range []int{1000, 20000, 60000} {
+		runs = append(runs, []byte("stun:example.org:3478?"+strings.Repeat("&", n)), []byte("turn:example.org?"+strings.Repeat("&", n)+"transport=tcp"),
+			[]byte("stuns:h?"+strings.Repeat("&;", n/2)))
+	}
+	emitParsed(o, runs, "continuation-runs-and-empty-pairs")
 	// grammar-mutated, non-ASCII, control characters, very long inputs
 	var rnd [][]byte
 	n := 3000
@@ -411,7 +428,7 @@ func genURI(r *rng) []byte {
 // host forms that other specifications give a meaning to: IDNA A-labels (whole, cut short, mistyped), RFC 3986
 // IPvFuture literals, RFC 6874 zone identifiers, IPv4-mapped and odd IPv6 spellings, percent escapes, a trailing
 // dot, an upper-case and a very long label
-var uriHostDictionary = []string{"xn--mnchen-3ya.example", "xn--mnchen-3y.example", "stun.xn--p1a", "xn--z", "xn--", "xn---", "xn--a-", "XN--MNCHEN-3YA", "a.xn--", "xn--99999999999",
+var uriHostDictionary = []string{"alice@example.org", "alice:secret@example.org", "@example.org", "a@b@c", "example.org@", "xn--mnchen-3ya.example", "xn--mnchen-3y.example", "stun.xn--p1a", "xn--z", "xn--", "xn---", "xn--a-", "XN--MNCHEN-3YA", "a.xn--", "xn--99999999999",
 	"[v6]", "[V4]", "[vface]", "[v]", "[v1.fe80::a+en1]", "[v7.x]", "[vF.]", "[v.]", "[vg]",
 	"[fe80::1%25eth0]", "[fe80::1%eth0]", "[fe80::1%]", "[fe80::1%25]", "example.org%", "example.org%2", "example.org%25", "ex%61mple.org", "%", "%zz",
 	"[::ffff:192.0.2.1]", "[::ffff:c000:201]", "[0:0:0:0:0:0:0:1]", "[::g]", "[a:b]", "[1::2::3]", "[::1", "::1]", "[]", "[[::1]]", "[ ::1]",
@@ -459,6 +476,14 @@ func execURIRoundTrip(o *out, f [][]int) []int {
 	}
 	if eq == 0 {
 		o.failFor("C17", "uri-roundtrip-fails", "1701 "+fHex(s)+" string="+fHex([]byte(str)))
+	}
+	// a formatted URI is a value: formatting another one afterwards does not change it
+	kept := str
+	keptCopy := string(append([]byte(nil), str...))
+	_ = (&stun.URI{Scheme: stun.SchemeTypeTURNS, Host: "another-host-with-a-much-longer-name.example.net", Port: 65000, Proto: stun.ProtoTypeTCP}).String()
+	_ = (&stun.URI{Scheme: stun.SchemeTypeSTUN, Host: "x", Port: 1, Proto: stun.ProtoTypeUDP}).String()
+	if kept != keptCopy {
+		o.failFor("C17", "formatted-uri-changed-later", "1701 "+fHex(s))
 	}
 	// what ParseURI returns belongs to the caller: editing it (credentials, another port or transport) changes
 	// nothing about what the same string parses to next time
@@ -889,8 +914,71 @@ func certFor(host string) (tls.Certificate, *x509.CertPool, error) {
 // tlsServerNameScenarios (oracle in Go): for secure schemes over TCP, DialURI verifies the server against
 // the URI's host — DNS names and IP literals alike: a server whose certificate is valid for exactly that
 // host completes the handshake, a server with a certificate for another host does not.
+// defaultNetScenarios: DialURI with no injected network (the library's own stdnet) against a loopback TCP
+// listener: a secure scheme starts with a TLS ClientHello, a plain one with a STUN header
+func defaultNetScenarios(o *out) {
+	ln, err := net.Listen("tcp", "127.0.0.1:0")
+	if err != nil {
+		o.count("tcp-loopback-unavailable")
+		return
+	}
+	defer ln.Close()
+	port := ln.Addr().(*net.TCPAddr).Port
+	for _, sc := range []struct {
+		uri    string
+		secure bool
+	}{{fmt.Sprintf("stuns:127.0.0.1:%d", port), true}, {fmt.Sprintf("turns:127.0.0.1:%d?transport=tcp", port), true}, {fmt.Sprintf("turn:127.0.0.1:%d?transport=tcp", port), false}} {
+		u, err := stun.ParseURI(sc.uri)
+		if err != nil {
+			continue
+		}
+		first := make(chan []byte, 1)
+		go func() {
+			c, err := ln.Accept()
+			if err != nil {
+				first <- nil
+				return
+			}
+			defer c.Close()
+			_ = c.SetReadDeadline(time.Now().Add(2 * time.Second))
+			buf := make([]byte, 64)
+			n, _ := c.Read(buf)
+			first <- buf[:n]
+		}()
+		cfg := &stun.DialConfig{}
+		cfg.TLSConfig.InsecureSkipVerify = true //nolint:gosec
+		done := make(chan *stun.Client, 1)
+		go func() {
+			c, _ := stun.DialURI(u, cfg)
+			if c != nil {
+				go func() { _ = c.Indicate(stun.MustBuild(stun.TransactionID, stun.BindingRequest)) }()
+			}
+			done <- c
+		}()
+		var b []byte
+		select {
+		case b = <-first:
+		case <-time.After(3 * time.Second):
+		}
+		select {
+		case c := <-done:
+			if c != nil {
+				go func() { _ = c.Close() }()
+			}
+		case <-time.After(3 * time.Second):
+		}
+		tlsRec := len(b) >= 3 && b[0] == 0x16 && b[1] == 0x03
+		clear := len(b) >= 8 && b[4] == 0x21 && b[5] == 0x12 && b[6] == 0xA4 && b[7] == 0x42
+		if (sc.secure && !tlsRec) || (!sc.secure && !clear) {
+			o.failFor("C17", "secure-scheme-dialed-in-plaintext", fmt.Sprintf("x %s through the library's own network (no injected Net): first bytes on the wire %x", sc.uri, b))
+		}
+		o.count("default-net-dials")
+	}
+}
+
 func tlsServerNameScenarios(o *out) {
 	failingDialScenarios(o)
+	defaultNetScenarios(o)
 	for _, host := range []string{"192.0.2.7", "2001:db8::7", "turn.example.org", "127.0.0.1"} {
 		for _, raw := range []string{"stuns:%s:5349", "turns:%s:443?transport=tcp"} {
 			for _, right := range []bool{true, false} {
